@@ -3,7 +3,8 @@
 (* Events recorded from the real NameServerPool over a scripted connection   *)
 (* provider on a virtual clock (times in ms since the start of the case):    *)
 (*   reset   case cfg calls     new pool with this configuration             *)
-(*   call    c q t              caller c asks for query q                    *)
+(*   call    c q rd cd t        caller c asks for question q with header     *)
+(*                              bits RD, CD                                  *)
 (*   att     s p n o q t        server s receives, over p, its n-th request  *)
 (*                              on that transport; it carries the id of the  *)
 (*                              caller it was made for (the origin o).       *)
@@ -59,14 +60,14 @@ Reset ==
 CallProblems == IF e.c \in DOMAIN cs THEN {"harness:duplicate-call"} ELSE {}
 
 CallUpdate ==
-    LET lk == LkOf(e.q) IN
+    LET lk == LkOf(QueryKey(e)) IN
     IF lk.active
-    THEN /\ cs' = Put(cs, e.c, [q |-> e.q, t |-> e.t, lk |-> lk.origin, ls |-> lk.start, done |-> FALSE, d |-> NoDone,
+    THEN /\ cs' = Put(cs, e.c, [q |-> e.q, rd |-> e.rd, cd |-> e.cd, t |-> e.t, lk |-> lk.origin, ls |-> lk.start, done |-> FALSE, d |-> NoDone,
                                  mode |-> IF cs[lk.origin].mode = "ambiguous" THEN "ambiguous" ELSE "joiner"])
          /\ lks' = lks
-    ELSE /\ cs' = Put(cs, e.c, [q |-> e.q, t |-> e.t, lk |-> e.c, ls |-> e.t, done |-> FALSE, d |-> NoDone,
+    ELSE /\ cs' = Put(cs, e.c, [q |-> e.q, rd |-> e.rd, cd |-> e.cd, t |-> e.t, lk |-> e.c, ls |-> e.t, done |-> FALSE, d |-> NoDone,
                                  mode |-> IF lk.lastDone = e.t THEN "ambiguous" ELSE "creator"])
-         /\ lks' = Put(lks, e.q, [active |-> TRUE, origin |-> e.c, start |-> e.t, lastDone |-> lk.lastDone])
+         /\ lks' = Put(lks, QueryKey(e), [active |-> TRUE, origin |-> e.c, start |-> e.t, lastDone |-> lk.lastDone])
 
 ---------------------------------------------------------------------------
 \* att: a request reaches a server
@@ -78,7 +79,8 @@ AttProblems ==
     ELSE IF ~(e.o \in DOMAIN cs) THEN {"harness:unknown-origin"}
     \* C18_SharedOnce: a caller that found its query in flight makes no request of its own
     ELSE IF cs[e.o].mode = "joiner" THEN {"exchange-not-shared"}
-    ELSE IF cs[e.o].q # e.q THEN {"request-for-another-query"}
+    \* the request that goes upstream is the caller's own query, header bits included
+    ELSE IF ~SameQuery(cs[e.o], e) THEN {"request-for-another-query"}
     \* a TCP connection attempt (socket level: the runtime is told how long it may take) is bounded by
     \* the configured connect timeout, nothing else
     ELSE IF e.p = "conn" /\ e.limit # cfg.ct THEN {"connect-timeout-not-honoured"}
@@ -107,7 +109,7 @@ EndProblems ==
              \* exchange was abandoned is the pool's to drop; should it be polled again later (a stale
              \* entry of the in-flight table) its reply is seen late, which is recorded and judged at
              \* the `done` of whoever receives it (answer-without-exchange, healthy-server-not-used ...)
-             alive == LkOf(a.q).active /\ LkOf(a.q).origin = cs[a.o].lk
+             alive == LkOf(QueryKey(cs[a.o])).active /\ LkOf(QueryKey(cs[a.o])).origin = cs[a.o].lk
          IN IF e.res # KindOf(cfg, a.p, b) THEN {"harness:reply-not-as-scripted"}
             ELSE IF alive /\ e.t # a.st + DurOf(cfg, a.p, b) THEN {"harness:reply-not-as-scripted"}
             ELSE IF ~alive /\ e.t < a.st + DurOf(cfg, a.p, b) THEN {"harness:reply-not-as-scripted"}
@@ -134,11 +136,15 @@ DoneProblems ==
               \cup (IF \E b \in DOMAIN cs : b # e.c /\ cs[b].lk = Me.lk /\ cs[b].done
                                             /\ cs[b].d.class # "cancelled" /\ cs[b].d # D
                     THEN {"shared-result-differs"} ELSE {})
+              \* "concurrent IDENTICAL queries share ...": the reply a caller gets was made for its own query
+              \* (servers echo RD and CD), not for one that differs from it in some component
+              \cup (IF e.class = "answer" /\ (e.erd # Me.rd \/ e.ecd # Me.cd)
+                    THEN {"distinct-queries-shared-one-exchange"} ELSE {})
 
 DoneUpdate ==
     /\ cs' = [cs EXCEPT ![e.c] = [@ EXCEPT !.done = TRUE, !.d = D]]
-    /\ lks' = IF LkOf(Me.q).active /\ LkOf(Me.q).origin = Me.lk
-              THEN [lks EXCEPT ![Me.q] = [@ EXCEPT !.active = FALSE, !.lastDone = e.t]]
+    /\ lks' = IF LkOf(QueryKey(Me)).active /\ LkOf(QueryKey(Me)).origin = Me.lk
+              THEN [lks EXCEPT ![QueryKey(Me)] = [@ EXCEPT !.active = FALSE, !.lastDone = e.t]]
               ELSE lks
 
 DoneDetail ==
@@ -162,8 +168,8 @@ CancelProblems == IF ~(e.c \in DOMAIN cs) \/ cs[e.c].done THEN {"harness:cancel-
 CancelUpdate ==
     LET others == {b \in DOMAIN cs : b # e.c /\ cs[b].lk = Me.lk /\ ~cs[b].done} IN
     /\ cs' = [cs EXCEPT ![e.c] = [@ EXCEPT !.done = TRUE, !.d = [t |-> e.t, class |-> "cancelled", from |-> 0, err |-> ""]]]
-    /\ lks' = IF LkOf(Me.q).active /\ LkOf(Me.q).origin = Me.lk /\ others = {}
-              THEN [lks EXCEPT ![Me.q] = [@ EXCEPT !.active = FALSE, !.lastDone = e.t]]
+    /\ lks' = IF LkOf(QueryKey(Me)).active /\ LkOf(QueryKey(Me)).origin = Me.lk /\ others = {}
+              THEN [lks EXCEPT ![QueryKey(Me)] = [@ EXCEPT !.active = FALSE, !.lastDone = e.t]]
               ELSE lks
 
 ---------------------------------------------------------------------------
